@@ -54,6 +54,16 @@ def run(ctx):
         m = re.match(r"^Cursor::new\((\w+)(?:\.clone\(\))?\)$", t)
         src_ok = False
         ident = m.group(1) if m else None
+        if ident is None:
+            # built from the stored snapshot: `Cursor::new(<stored>.data.clone())` with `<stored> = StoredSnapshot { data: <ident>, .. }`
+            m2 = re.match(r"^Cursor::new\((\w+)\.data(?:\.clone\(\))?\)$", t)
+            if m2:
+                sl = _let_init(bs, m2.group(1))
+                sn = [x for x in A.walk(sl["init"]) if x.get("k") == "struct" and x["path"].split("::")[-1] == "StoredSnapshot"] if sl is not None else []
+                if sn:
+                    dtxt = {x["name"]: A.text(x["e"]) for x in sn[0]["fields"]}.get("data", "")
+                    m3 = re.match(r"^(\w+)(?:\.clone\(\))?$", dtxt)
+                    ident = m3.group(1) if m3 else None
         li = _let_init(bs, ident) if ident else None
         if li is not None:
             it = A.text(li["init"])
